@@ -59,10 +59,12 @@ def run_small(key):
         digits.append(idx % 3)
         idx //= 3
     S = np.array(digits[::-1]).reshape(K, K)
-    for dt in (np.int64, np.float64):
-        res = check_matrix(pa, S.astype(dt))
+    for dt, scale in ((np.int64, 1), (np.float64, 1.0), (np.float32, 1e8), (np.float64, 1e17), (np.float64, -1e17)):
+        # large magnitudes: x - 1 == x in floating point beyond 2^24 (float32) / 2^53 (float64)
+        M_ = (S.astype(np.float64) * scale if scale > 0 else (S.astype(np.float64) - 2.0) * -scale).astype(dt)
+        res = check_matrix(pa, M_)
         if res not in ('eq', 'ne', None):
-            return viol(res, S.tolist())
+            return viol(res + f' (dtype {np.dtype(dt).name}, scale {scale})', M_.tolist())
     return ok(outcome=res, flags=['greedy_lt_optimal'] if res == 'ne' else [], states=1, transitions=2)
 
 
@@ -200,6 +202,37 @@ def run_fields(key):
     return ok(outcome=f'{K},{F},{T},{kind}', evals=n, states=n, transitions=n * F)
 
 
+def run_reuse(key):
+    """one aligner object serves a sequence of references that live in the SAME buffer (refilled in place between
+    the calls, as a block-online caller does): every call must return the reference it was given."""
+    pa = _pa()
+    K, F, T, metric, alg, seed = (key[k] for k in ('K', 'F', 'T', 'metric', 'alg', 'seed'))
+    perms = list(itertools.permutations(range(K)))
+    al = pa.OraclePermutationAlignment(similarity_metric=metric, algorithm=alg)
+    buf = np.zeros((K, F, T))
+    r = A.rng(seed, 'c15reuse', K, F, T)
+    n = 0
+    for step, kind in enumerate(('generic', 'binaryish', 'generic', 'generic')):
+        if metric == 'multiply' and kind == 'binaryish':
+            continue
+        ref = reference_mask(seed + 17 * step, K, F, T, kind)
+        buf[...] = ref                                   # same array object, new content
+        fld = r.integers(0, len(perms), size=F)
+        mapping_in = np.array([perms[p] for p in fld]).T
+        mask = R.apply_mapping_loop(ref, mapping_in)
+        try:
+            out = al(mask, buf)
+        except Exception as e:  # noqa
+            return viol(f'Oracle({metric},{alg}) raised {e!r} in call {step} of a reused aligner')
+        if not np.array_equal(buf, ref):
+            return viol('the reference buffer was modified')
+        if not np.array_equal(out, ref):
+            return viol(f'Oracle({metric},{alg}) reused for a reference refilled in place: call {step} does not '
+                        f'return its reference')
+        n += 1
+    return ok(outcome=f'{K},{F},{T},{metric},{alg}', evals=n, states=n, transitions=n)
+
+
 def run_integer_masks(key):
     """0/1 masks in small integer dtypes with more than 127 / 255 ones per row."""
     pa = _pa()
@@ -280,6 +313,15 @@ def subchecks(tier, seed):
                     yield (K, lead, alg, seed)
     subs.append(Sub('score_matrix_stacks', ('K', 'lead', 'alg', 'seed'), stack_cases, run_stacked,
                     bound=dict(leading_axes='1..3 axes, equal and unequal sizes', K=[2, 3, 4])))
+
+    def reuse_cases():
+        for K in (2, 3):
+            for F in (1, 3):
+                for T in (2, 5):
+                    for metric in ('cos', 'euclidean', 'multiply'):
+                        for alg in ('greedy', 'optimal'):
+                            yield (K, F, T, metric, alg, seed)
+    subs.append(Sub('aligner_reuse', ('K', 'F', 'T', 'metric', 'alg', 'seed'), reuse_cases, run_reuse))
 
     def pp_cases():
         for K in (4, 5, 6):
